@@ -1,16 +1,21 @@
 """C19 -- extract and extract-geotherm return table values faithfully.
 
-Click callbacks over glob, pandas and RectBivariateSpline: no function boundary for a deductive contract and the
-deciding behaviour is pandas indexing / scipy interpolation.  Run-time contracts on the real callbacks in a temporary
-directory of synthetic tables (written with the calculator's own save_x_tp): bounded stand-in.
+Deductive fragment: the real click callbacks are executed on symbolic tables of symbolic size with pandas / numpy / scipy
+replaced by recording contract stubs (sys.modules swap inside the checker process, the callbacks import them locally): what
+is handed to numpy.argmin is proved to be |own grid - request|, the output column of each variable the argmin row (column) of
+ITS table, the labels the other coordinate; for the geotherm command the spline is proved to be built from (T grid, P grid,
+own table) and queried point-wise at the geotherm's (T, P) columns, the geotherm's own columns passing through.
+What stays bounded: load_data (glob + pandas parsing), pandas label alignment and printing, the spline itself (A-SCIPY) --
+run-time contracts on the real commands in temporary directories of synthetic tables.
 """
 import importlib, io, os, random, shutil, tempfile
 import numpy
 import pandas
 from vf import core
 
-LEVEL = "exploration"
-EXPLANATION = "bounded stand-in: run-time postconditions on the real `extract` / `extract-geotherm` callbacks over synthetic output tables; nothing is proved"
+LEVEL = "other"
+EXPLANATION = ("call-site contracts of the real `extract` / `extract-geotherm` callbacks proved on symbolic tables of symbolic size (argmin over |grid - request|, "
+               "row selection, labelling, spline arguments); file loading, pandas alignment/printing and the spline are bounded run-time contracts")
 
 FILES = {"c11s": "c11s_tp_gpa.txt", "c12s": "c12s_tp_gpa.txt", "c44t": "c44t_tp_gpa.txt", "bm_V": "bm_V_tp_gpa.txt", "bm_VRH": "bm_VRH_tp_gpa.txt", "bm_R": "bm_R_tp_gpa.txt",
          "G_V": "G_V_tp_gpa.txt", "G_VRH": "G_VRH_tp_gpa.txt", "v": "v_tp_ang3.txt", "v_p": "v_p_tp_km_s.txt", "v_s": "v_s_tp_km_s.txt"}
@@ -37,12 +42,291 @@ def parse(out, header=True):
     return pandas.read_table(io.StringIO(out), sep=r"\s+", index_col=0, header=0 if header else None)
 
 
+# =========================================================================================== deductive fragment (call-site contracts)
+class _Swap:
+    """temporarily replace entries of sys.modules (the callbacks import pandas / numpy / glob locally)"""
+
+    def __init__(self, **mods):
+        self.mods = mods
+
+    def __enter__(self):
+        import sys
+        self.old = {k: sys.modules.get(k) for k in self.mods}
+        sys.modules.update(self.mods)
+
+    def __exit__(self, *a):
+        import sys
+        for k, v in self.old.items():
+            if v is None:
+                sys.modules.pop(k, None)
+            else:
+                sys.modules[k] = v
+        return False
+
+
+def _stubs():
+    import types, z3
+    from vf import symnp
+    from vf.symnp import SymArr, Sc
+
+    class Req(Sc):
+        """the requested temperature / pressure: a symbolic real that can be compared with None"""
+        def __eq__(self, o): return False if o is None else Sc.__eq__(self, o)
+        def __ne__(self, o): return True if o is None else Sc.__ne__(self, o)
+        __hash__ = Sc.__hash__
+
+    class SymIdx:
+        def __init__(self, j, of): self.j, self.of = j, of
+
+    class SIndex:
+        def __init__(self, arr): self.arr = arr
+        def to_numpy(self, *a, **k): return self.arr
+        @property
+        def values(self): return self.arr
+
+    class SSeries:
+        def __init__(self, index, values, origin): self.index, self.values, self.origin = index, values, origin
+        def to_numpy(self, *a, **k): return self.values
+
+    class _ILoc:
+        def __init__(self, fr): self.fr = fr
+
+        def __getitem__(self, k):
+            fr = self.fr
+            if not isinstance(k, SymIdx):
+                raise core.OutsideSubset("iloc[%r]" % (k,))
+            return SSeries(fr._columns, SymArr((fr._columns.shape[0],), lambda idx, v=fr._values, j=k.j: v.elem((j, idx[0]))), ("row", fr, k))
+
+    class SFrame:
+        def __init__(self, index, columns, values, name=None, transposed=False):
+            self._index, self._columns, self._values, self.name, self.transposed = index, columns, values, name, transposed
+        @property
+        def T(self):
+            v = self._values
+            return SFrame(self._columns, self._index, SymArr((v.shape[1], v.shape[0]), lambda idx, v=v: v.elem((idx[1], idx[0]))), self.name, not self.transposed)
+        @property
+        def index(self): return SIndex(self._index)
+        @property
+        def columns(self): return SIndex(self._columns)
+        @property
+        def iloc(self): return _ILoc(self)
+        def to_numpy(self, *a, **k): return self._values
+
+    class STable:
+        """pandas.DataFrame(columns=..., index=...) being filled column by column, or the geotherm table"""
+        def __init__(self, columns=None, index=None, data=None):
+            self.columns_req, self.index, self.cols, self.printed = list(columns) if columns is not None else None, index, dict(data or {}), None
+            self.order = list(self.cols)
+
+        def __setitem__(self, k, v):
+            if k not in self.order:
+                self.order.append(k)
+            self.cols[k] = v
+
+        def __getitem__(self, k):
+            if k not in self.cols:
+                raise KeyError(k)
+            return self.cols[k]
+
+        def to_string(self, **kw):
+            self.printed = dict(kw)
+            return ("TABLE", self)
+    return types.SimpleNamespace(Req=Req, SymIdx=SymIdx, SIndex=SIndex, SSeries=SSeries, SFrame=SFrame, STable=STable)
+
+
+def ob_extract(ex, kind, variables, perturb=False):
+    """the real `extract` callback on symbolic tables of symbolic size: what is handed to argmin, which row is taken, how
+    the output table is labelled"""
+    import types, z3
+    from vf import symnp, smt
+    from vf.symnp import SymArr, Dim, SymNumpy
+    from contracts.nonshear_env import patched
+    st = _stubs()
+    nT, nP = Dim("nT"), Dim("nP")
+    Tg, Pg = SymArr.atom("Tgrid", (nT,)), SymArr.atom("Pgrid", (nP,))
+    tabs = {v: SymArr.atom("tab_%s" % v, (nT, nP)) for v in variables}
+    y = z3.Real("y_requested")
+    argmins, printed, tables = [], [], []
+
+    def argmin(a, *args, **kw):
+        if args or kw or not symnp.is_arr(a) or a.ndim != 1:
+            raise core.OutsideSubset("argmin call shape")
+        j = z3.Int("j%d" % len(argmins))
+        argmins.append((j, a))
+        return st.SymIdx(j, a)
+
+    def argmax(a, *args, **kw):
+        r = argmin(a, *args, **kw)
+        r.is_max = True
+        return r
+
+    def absf(a):
+        if symnp.is_arr(a):
+            return SymArr(a.shape, lambda idx, e=a.elem: z3.If(e(idx) >= 0, e(idx), -e(idx)))
+        raise core.OutsideSubset("abs of a non-array")
+    snp = SymNumpy(extra={"argmin": argmin, "argmax": argmax, "nanargmin": argmin, "abs": absf, "absolute": absf, "fabs": absf})
+
+    def DataFrame(*a, **kw):
+        if a or set(kw) - {"columns", "index"}:
+            raise core.OutsideSubset("DataFrame call shape")
+        t = st.STable(columns=kw.get("columns"), index=kw.get("index"))
+        tables.append(t)
+        return t
+    spd = types.SimpleNamespace(DataFrame=DataFrame)
+
+    def load_data(var):
+        if var not in tabs:
+            raise core.OutsideSubset("load_data(%r)" % (var,))
+        return st.SFrame(Tg, Pg, tabs[var], var)
+
+    def rec_print(*a, **k):
+        printed.append(a)
+    req = st.Req(y)
+    with patched(ex, load_data=load_data, print=rec_print), _Swap(pandas=spd, numpy=snp):
+        ex.main.callback(variables=",".join(variables), hide_header=False, temperature=req if kind == "T" else None, pressure=req if kind == "P" else None)
+    if len(printed) != 1 or len(printed[0]) != 1 or not (isinstance(printed[0][0], tuple) and printed[0][0][0] == "TABLE"):
+        return core.refuted("callsite", "the command prints %r instead of one table" % (printed,), witness_id="print")
+    table = printed[0][0][1]
+    if table.printed.get("header", True) is not True or table.printed.get("index", True) is not True:
+        return core.refuted("callsite", "table printed with %r (header requested, row labels required)" % (table.printed,), witness_id="to_string")
+    if table.order != list(variables):
+        return core.refuted("callsite", "output columns %s, requested %s" % (table.order, list(variables)), witness_id="columns")
+    grid, other = (Tg, Pg) if kind == "T" else (Pg, Tg)
+    i, c = z3.Ints("i c")
+    goals, facts = [], [i >= 0, c >= 0]
+    lab = table.index.arr if isinstance(table.index, st.SIndex) else table.index
+    if not symnp.is_arr(lab):
+        raise core.OutsideSubset("row labels of the output table: %r" % (lab,))
+    if not symnp.same_shape(lab.shape, other.shape):
+        return core.refuted("callsite", "the output is labelled by an array of shape %s, the other coordinate has %s" % (lab.shape, other.shape), witness_id="label-shape")
+    goals.append(lab.elem((c,)) == other.elem((c,)))
+    for v in variables:
+        ser = table.cols[v]
+        if not isinstance(ser, st.SSeries):
+            raise core.OutsideSubset("column %r of the output is %r" % (v, ser))
+        _, fr, k = ser.origin
+        # alignment on assignment: the series' own labels must be the table's labels (same grid for every variable)
+        goals.append(ser.index.elem((c,)) == lab.elem((c,)))
+        # the argmin argument is the distance of this variable's own grid to the request
+        dist = k.of
+        if getattr(k, "is_max", False):
+            return core.refuted("callsite", "variable %r: the row is chosen with argmax of the distance (the farthest grid point)" % v, witness_id="argmax")
+        if not symnp.same_shape(dist.shape, grid.shape):
+            return core.refuted("callsite", "argmin over an array of shape %s, the requested coordinate has %s" % (dist.shape, grid.shape), witness_id="argmin-shape:%s" % v)
+        d = grid.elem((i,)) - y
+        goals.append(dist.elem((i,)) == (d if perturb else z3.If(d >= 0, d, -d)))
+        want = tabs[v].elem((k.j, c)) if kind == "T" else tabs[v].elem((c, k.j))
+        goals.append(ser.values.elem((c,)) == want)
+    r = smt.prove(z3.And(*goals), facts)
+    if r.status == core.REFUTED:
+        r.witness_id = "extract-%s" % kind
+    elif r.status == core.PROVED:
+        r.detail = ("for all grid sizes, grids, tables and requests: argmin is taken over |own %s grid - request|, column v of the output is row argmin of "
+                    "table v, rows are labelled by the %s grid (%d variables)" % ("T" if kind == "T" else "P", "P" if kind == "T" else "T", len(variables)))
+        r.sample = "extract -%s y: forall v, c: out[v][c] == tab_v[argmin_i |grid_i - y|, c]; labels == other grid" % kind
+    return r
+
+
+def ob_geotherm(geo, variables):
+    """the real `extract-geotherm` callback: which grids / values the spline is built from and where it is evaluated"""
+    import types, z3
+    from vf import symnp, smt
+    from vf.symnp import SymArr, Dim, SymNumpy
+    from contracts.nonshear_env import patched
+    st = _stubs()
+    nT, nP, ng = Dim("nT"), Dim("nP"), Dim("ng")
+    Tg, Pg = SymArr.atom("Tgrid", (nT,)), SymArr.atom("Pgrid", (nP,))
+    tabs = {v: SymArr.atom("tab_%s" % v, (nT, nP)) for v in variables}
+    gP, gT, gD = SymArr.atom("geoP", (ng,)), SymArr.atom("geoT", (ng,)), SymArr.atom("geoD", (ng,))
+    gtab = st.STable(data={"P": gP, "T": gT, "D": gD})
+    printed, splines = [], []
+
+    class Spline:
+        def __init__(self, x, y, z, **kw):
+            if kw:
+                raise core.OutsideSubset("RectBivariateSpline options %r" % (kw,))
+            self.x, self.y, self.z = x, y, z
+            splines.append(self)
+
+        def __call__(self, xq, yq, **kw):
+            self.q = (xq, yq, kw)
+            return ("SPLINE-VALUES", self)
+
+    def read_table(path, **kw):
+        if kw.get("index_col", None) is not None or kw.get("header", "infer") not in (0, "infer"):
+            raise core.OutsideSubset("read_table options %r" % (kw,))
+        return gtab
+
+    def load_data(var):
+        return st.SFrame(Tg, Pg, tabs[var], var)
+    import scipy.interpolate as real_si
+    fake_si = types.ModuleType("scipy.interpolate")
+    fake_si.RectBivariateSpline = Spline
+    with patched(geo, load_data=load_data, print=lambda *a, **k: printed.append(a)), \
+            _Swap(pandas=types.SimpleNamespace(read_table=read_table), numpy=SymNumpy(), **{"scipy.interpolate": fake_si}):
+        import scipy
+        old = scipy.interpolate
+        scipy.interpolate = fake_si
+        try:
+            geo.main.callback(variables=",".join(variables), hide_header=False, t_col="P", p_col="T", geotherm="geo.txt")
+        finally:
+            scipy.interpolate = old
+    if len(printed) != 1 or printed[0][0][1] is not gtab:
+        return core.refuted("callsite", "the command does not print the geotherm table it read", witness_id="print")
+    if gtab.printed.get("header", True) is not True or gtab.printed.get("index", True) is not False:
+        return core.refuted("callsite", "table printed with %r" % (gtab.printed,), witness_id="to_string")
+    if gtab.order != ["P", "T", "D"] + list(variables):
+        return core.refuted("callsite", "output columns %s" % gtab.order, witness_id="columns")
+    i, c, g = z3.Ints("i c g")
+    goals = [gtab.cols["P"].elem((g,)) == gP.elem((g,)), gtab.cols["T"].elem((g,)) == gT.elem((g,)), gtab.cols["D"].elem((g,)) == gD.elem((g,))]
+    for v in variables:
+        val = gtab.cols[v]
+        if not (isinstance(val, tuple) and val[0] == "SPLINE-VALUES"):
+            raise core.OutsideSubset("column %r of the output is %r" % (v, val))
+        sp = val[1]
+        xq, yq, kw = sp.q
+        if kw != {"grid": False}:
+            return core.refuted("callsite", "spline evaluated with %r: point-wise evaluation needs grid=False" % (kw,), witness_id="grid")
+        # which axis is which: the spline's first axis is either the T grid (then it must be queried with the geotherm T) or the P grid
+        for first, second, q1, q2, tab in ((Tg, Pg, gT, gP, lambda a, b: tabs[v].elem((a, b))), (Pg, Tg, gP, gT, lambda a, b: tabs[v].elem((b, a)))):
+            if symnp.same_shape(sp.x.shape, first.shape) and symnp.same_shape(sp.y.shape, second.shape):
+                cand = z3.And(sp.x.elem((i,)) == first.elem((i,)), sp.y.elem((c,)) == second.elem((c,)), sp.z.elem((i, c)) == tab(i, c),
+                              xq.elem((g,)) == q1.elem((g,)), yq.elem((g,)) == q2.elem((g,)))
+                r = smt.prove(cand, [i >= 0, c >= 0, g >= 0])
+                if r.status == core.PROVED:
+                    break
+        else:
+            r = core.refuted("callsite", "variable %r: the spline is not built from (own grid, other grid, own table) and queried at the geotherm's matching columns" % v,
+                             witness_id="spline-args")
+            return r
+        goals.append(z3.BoolVal(True))
+    r = smt.prove(z3.And(*goals), [g >= 0])
+    if r.status == core.PROVED:
+        r.detail = ("each variable's column is RectBivariateSpline(own T grid, own P grid, own table) evaluated point-wise at (geotherm T, geotherm P); "
+                    "geotherm columns passed through; printed without row labels (%d variables)" % len(variables))
+        r.sample = "extract-geotherm: out[v][g] == Spline(Tgrid, Pgrid, tab_v)(geoT[g], geoP[g]); out[P,T,D] == geotherm columns"
+    return r
+
+
+def deductive(s, ex, geo):
+    s.assume("A-NUMPY: numpy.argmin returns an index of a minimal entry (the first); A-SCIPY: RectBivariateSpline(x, y, z) interpolates z on the grid "
+             "x X y (exact at nodes, convergent under refinement) -- the deductive obligations are the call-site contracts of these two",
+             "load_data(var) returns var's table with temperatures as row labels and pressures as column labels (bounded part)")
+    for kind in ("T", "P"):
+        s.oblige("C19.extract.nearest_%s(call-site)" % ("row_by_T" if kind == "T" else "column_by_P"),
+                 lambda kind=kind: ob_extract(ex, kind, ["c11s", "v_s", "bm_VRH"]), ["cli/extract.main"])
+    s.canary("C19.canary.distance_without_abs", lambda: ob_extract(ex, "T", ["G_V"], perturb=True))
+    s.oblige("C19.extract.single_variable(call-site)", lambda: ob_extract(ex, "T", ["G_V"]), ["cli/extract.main"])
+    s.oblige("C19.geotherm.spline_arguments(call-site)", lambda: ob_geotherm(geo, ["c11s", "v_s"]), ["cli/geotherm.main", "cli/geotherm.fit_data"])
+
+
 def run(s):
     from click.testing import CliRunner
     ex = importlib.import_module("cij.cli.extract")
     geo = importlib.import_module("cij.cli.geotherm")
+    deductive(s, ex, geo)
     s.assume("A-PANDAS, A-CLICK, A-SCIPY (RectBivariateSpline), A-QHA (save_x_tp writes the tables)")
-    s.undecided_part("everything: pandas indexing and bivariate spline interpolation inside click callbacks; bounded run-time contracts only")
+    s.undecided_part("load_data (glob + pandas parsing), pandas label alignment / printing and the spline's interpolation: bounded run-time contracts only")
     rnd = random.Random(s.seed)
     n = 4 if s.tier == "quick" else 60
     cwd = os.getcwd()
@@ -159,16 +443,19 @@ def run(s):
                       "between nodes and outside the grid, by T and by P, single and multiple variables; seed %d" % (n, s.seed), evals, distinct, fails, ["cli/extract.main", "cli/extract.load_data"])
     s.bounded_standin("C19.geotherm_values", "%d table sets: geotherm paths through grid nodes (pressures written as floats and as integers) and between nodes under 1x/2x/4x grid refinement; "
                       "seed %d" % (n, s.seed), evals_g, distinct_g, fails_g, ["cli/geotherm.main", "cli/geotherm.fit_data", "cli/geotherm.load_data"])
-    s.min_obligations = 0
+    s.min_obligations = 4
 
 
 MANIFEST = {
-    "engine": "rtc", "category": "exploration",
-    "technique": "bounded stand-in: run-time postconditions on the real extract / extract-geotherm callbacks (no deductive obligation)",
-    "text": "Not decided deductively (click callbacks over glob, pandas indexing and scipy's bivariate spline). The real commands are run in temporary "
-            "directories holding synthetic tables written by the calculator's own table writer: extract must return, for each requested variable, "
-            "exactly the row (or column) of ITS table nearest to the requested temperature (pressure), labelled by the other coordinate -- for nodes, "
-            "mid-points, out-of-grid requests and variable names that are prefixes of other files; extract-geotherm must return the table entry at "
-            "grid nodes (pressures written as floats or integers), pass the geotherm's columns through, and converge under grid refinement.",
-    "note": "bounded: 4 (quick) / 60 (thorough) table sets; never counted as discharged.",
+    "engine": "symnp", "category": "other",
+    "technique": "contract-based deductive verification of the call sites: the real click callbacks run on symbolic tables with recording pandas/numpy/scipy "
+                 "contract stubs, obligations discharged by z3; bounded run-time contracts for file loading, pandas and the spline",
+    "text": "Proved for all grid sizes, grids, tables and requests: extract hands |own grid - request| to numpy.argmin (nearest node by argmin's contract), "
+            "takes that row (column, for -P) of each variable's OWN table and labels the output by the other coordinate, one column per requested "
+            "variable in order; extract-geotherm builds RectBivariateSpline(T grid, P grid, own table) and evaluates it point-wise (grid=False) at the "
+            "geotherm's (T, P) columns, passing the geotherm's own columns through and printing without row labels. Bounded: the real commands in "
+            "temporary directories holding synthetic tables written by the calculator's own table writer (nodes, mid-points, out-of-grid requests, "
+            "variable names that are prefixes of other files, integer-typed pressures, convergence under grid refinement).",
+    "note": "A-NUMPY (argmin), A-SCIPY (RectBivariateSpline interpolates), A-PANDAS (alignment of equal labels is the identity; read_table). "
+            "bounded: 4 (quick) / 60 (thorough) table sets; never counted as discharged.",
 }
